@@ -108,6 +108,9 @@ type gbPrinter struct {
 	// stmtExt: statement forms of another generator that shares the normal form (iodelegate.go: `defer`);
 	// nil for the reader
 	stmtExt func(p *gbPrinter, sc *gbScope, s ast.Stmt, ind int, out *[]gbLine) bool
+	// stems: parameter names by type of another generator (gpars.go: inside package pars the types are
+	// unqualified); consulted before gbParamStem; nil for the reader
+	stems map[string]string
 }
 
 func (p *gbPrinter) refuse(n ast.Node, format string, a ...interface{}) {
@@ -125,6 +128,9 @@ var gbParamStem = map[string]string{
 
 func (p *gbPrinter) paramName(sc *gbScope, typ string) string {
 	stem, ok := gbParamStem[typ]
+	if s, own := p.stems[typ]; own {
+		stem, ok = s, true
+	}
 	if !ok {
 		stem = "a"
 	}
